@@ -93,6 +93,8 @@ type hashCase struct {
 	Mode   int    `json:"mode"`
 	N      int    `json:"n"`
 	Blocks int    `json:"blocks"`
+	// Squeezes: blocks taken by each successive Squeeze call (default: one call of two blocks)
+	Squeezes []int `json:"squeezes,omitempty"`
 }
 
 func checkHash(c hashCase) (h.Info, error) {
@@ -106,29 +108,43 @@ func checkHash(c hashCase) (h.Info, error) {
 		return info, err
 	}
 	clone := cu.Clone() // taken after 1 or 2 permutations: continues like the original
-	dst := make([]trinary.Trits, c.N)
-	if err := cu.Squeeze(dst, 2*ref.Rate); err != nil {
-		return info, err
+	calls := c.Squeezes
+	if len(calls) == 0 {
+		calls = []int{2}
 	}
-	cdst := make([]trinary.Trits, c.N)
-	if err := clone.Squeeze(cdst, 2*ref.Rate); err != nil {
-		return info, err
+	sps := make([]ref.Sponge, c.N)
+	for j := range src {
+		sps[j].Absorb(src[j])
 	}
-	for j := range dst {
-		for i := range dst[j] {
-			if cdst[j][i] != dst[j][i] {
-				return info, fmt.Errorf("[%s build] a clone taken after absorbing %d block(s) squeezes lane %d trit %d = %d, the original %d", buildVariant, c.Blocks, j, i, cdst[j][i], dst[j][i])
+	for ci, blocks := range calls {
+		if blocks < 1 || blocks > 4 {
+			return info, fmt.Errorf("PRECONDITION: squeeze length")
+		}
+		dst := make([]trinary.Trits, c.N)
+		if err := cu.Squeeze(dst, blocks*ref.Rate); err != nil {
+			return info, err
+		}
+		cdst := make([]trinary.Trits, c.N)
+		if err := clone.Squeeze(cdst, blocks*ref.Rate); err != nil {
+			return info, err
+		}
+		for j := range dst {
+			for i := range dst[j] {
+				if cdst[j][i] != dst[j][i] {
+					return info, fmt.Errorf("[%s build] a clone taken after absorbing %d block(s) squeezes (call %d of %v blocks) lane %d trit %d = %d, the original %d", buildVariant, c.Blocks, ci+1, calls, j, i, cdst[j][i], dst[j][i])
+				}
 			}
 		}
-	}
-	for j := range src {
-		var sp ref.Sponge
-		sp.Absorb(src[j])
-		want := sp.Squeeze(2 * ref.Rate)
-		for i := range want {
-			if dst[j][i] != want[i] {
-				return info, fmt.Errorf("[%s build] lane %d/%d trit %d = %d, Curl-P-81 reference %d", buildVariant, j, c.N, i, dst[j][i], want[i])
+		for j := range src {
+			want := sps[j].Squeeze(blocks * ref.Rate)
+			for i := range want {
+				if dst[j][i] != want[i] {
+					return info, fmt.Errorf("[%s build] squeeze call %d of %v blocks: lane %d/%d trit %d = %d, Curl-P-81 reference %d", buildVariant, ci+1, calls, j, c.N, i, dst[j][i], want[i])
+				}
 			}
+		}
+		if ci == 0 && len(calls) > 1 {
+			clone = cu.Clone() // and a clone taken between two squeeze calls
 		}
 	}
 	return info, nil
@@ -139,9 +155,10 @@ func TestSpongeLevel(t *testing.T) {
 		Prop: "C20", Name: "sponge-level-" + buildVariant, N: 150,
 		Gen: func(t *rapid.T) hashCase {
 			return hashCase{Seed: rapid.Uint64().Draw(t, "seed"), Mode: rapid.IntRange(0, 5).Draw(t, "mode"),
-				N: h.OneOf(t, "n", 1, 2, 7, curl.MaxBatchSize-1, curl.MaxBatchSize, curl.MaxBatchSize), Blocks: rapid.IntRange(1, 3).Draw(t, "blocks")}
+				N: h.OneOf(t, "n", 1, 2, 7, curl.MaxBatchSize-1, curl.MaxBatchSize, curl.MaxBatchSize), Blocks: rapid.IntRange(1, 3).Draw(t, "blocks"),
+				Squeezes: rapid.SliceOfN(rapid.IntRange(1, 3), 1, 4).Draw(t, "squeezes")}
 		},
 		Check: checkHash, Require: []string{"sponge/mode2", "sponge/mode4"},
-		Rule: "public-API part (no hook): 1..W lanes (W = bits per machine word of the build target) absorbed (1..3 blocks) and two blocks squeezed through the build-selected permutation, from the instance and from a clone taken before squeezing, = scalar Curl-P-81 per lane; run on the default build, the purego build and the GOARCH=386 build (32-bit words), so hashes are independent of build target and tag; non-trivial = >= 2 distinct lanes; distinct by case",
+		Rule: "public-API part (no hook): 1..W lanes (W = bits per machine word of the build target) absorbed (1..3 blocks) and squeezed in 1..4 successive calls of 1..3 blocks through the build-selected permutation, from the instance and from clones taken before squeezing and between two calls, = scalar Curl-P-81 per lane; run on the default build, the purego build and the GOARCH=386 build (32-bit words), so hashes are independent of build target and tag; non-trivial = >= 2 distinct lanes; distinct by case",
 	})
 }
